@@ -175,6 +175,38 @@ def gen_case(r, size="quick"):
     while remaining[0] > 0 and len(main["items"]) < 12:
         remaining[0] -= 1
         main["items"].append({"t": tmpl()})
+    if r.chance(1, 4):
+        # named templates (anywhere in the import tree) called from some rules
+        mods = [m for _, m in all_modules(main) if not m.get("wrapperless")]
+        rules = [t for _, t, _ in all_templates(main) if t["alts"]]
+        homes = []
+        for _ in range(r.range(1, 2)):
+            ids[0] += 1
+            nt = {"id": ids[0], "mode": 0, "prio": None, "alts": [], "ai": r.chance(2, 3), "named": True}
+            home = r.choice(mods)
+            home["items"].append({"t": nt})
+            homes.append((nt, home))
+        # rules below the module of a named template must not call a named template: with the unchanged engine
+        # (current template := the named template) apply-imports would reach such a rule again and again
+        below = set()
+
+        def collect(m, inside):
+            for t2, _ in flat_templates(m):
+                if inside:
+                    below.add(t2["id"])
+            for c in flat_imports(m):
+                collect(c, True)
+        for _, home in homes:
+            collect(home, False)
+        for nt, _ in homes:
+            for t in rules:
+                if t["id"] in below:
+                    continue
+                if not t.get("call") and r.chance(1, 3) and not any(m.get("wrapperless") and any(
+                        it.get("t") is t for it in m["items"]) for _, m in all_modules(main)):
+                    t["call"] = nt["id"]
+                    if nt["ai"]:
+                        t["ai"] = False
     keymatch = r.choice(["text()|b", "b|comment()", "a|@x", "processing-instruction()|a/b", "text()", "/ | a"])
     return {"doc": gen_doc(r, 14 if big else 10), "keymatch": keymatch, "main": main}
 
@@ -282,12 +314,19 @@ def esc(s):
 
 
 def tmpl_xml(t):
+    if t.get("named"):
+        return '<xsl:template name="n%d"><t k="%d"/>%s</xsl:template>' % (
+            t["id"], t["id"], "<xsl:apply-imports/>" if t["ai"] else "")
     s = '<xsl:template match="%s"' % esc(pattern_text(t))
     if t["mode"]:
         s += ' mode="m%d"' % t["mode"]
     if t["prio"] is not None:
         s += ' priority="%s"' % fmt_prio(t["prio"])
     s += '><t k="%d"/>' % t["id"]
+    for k in t.get("extra", []):
+        s += '<t k="%d"/>' % k
+    if t.get("call"):
+        s += '<xsl:call-template name="n%d"/>' % t["call"]
     if t["ai"]:
         s += "<xsl:apply-imports/>"
     return s + "</xsl:template>"
@@ -307,7 +346,9 @@ def split_unions(case):
     def fix(items):
         out = []
         for it in items:
-            if "t" in it:
+            if "t" in it and not it["t"]["alts"]:
+                out.append(it)
+            elif "t" in it:
                 for a in it["t"]["alts"]:
                     t2 = dict(it["t"])
                     t2["alts"] = [a]
@@ -337,6 +378,22 @@ def explicit_defaults(case):
             ds = set(spec_default(a) for a in t["alts"])
             if len(ds) == 1:
                 t["prio"] = ds.pop()
+    return c
+
+
+def inline_calls(case):
+    """§5.6: xsl:call-template does not change the current template rule, so calling a named template whose body is
+    "marker, apply-imports" is equivalent to writing that body in the calling rule."""
+    import copy
+    c = copy.deepcopy(case)
+    allt = [t for _, t, _ in all_templates(c["main"])]
+    named = {t["id"]: t for t in allt if t.get("named")}
+    for t in allt:
+        if t.get("call"):
+            n = named[t["call"]]
+            t["extra"] = [n["id"]]
+            t["ai"] = t["ai"] or n["ai"]
+            del t["call"]
     return c
 
 
@@ -461,9 +518,12 @@ def model_lines(case, nodes, matches):
         L.append("sheet %s %d" % (ps, 1 if m.get("wrapperless") else 0))
         for t, rb in flat_templates(m):
             alts = " ".join("%s %s %d" % (ALTS[a][1], ALTS[a][2], ALTS[a][3]) for a in t["alts"])
-            L.append("tmpl %s %d %d %s %d %d %d %s" % (
+            ai = "%d" % (1 if t["ai"] else 0)
+            if t.get("call"):
+                ai += "c%d" % t["call"]
+            L.append(("tmpl %s %d %d %s %d %s %d %s" % (
                 ps, t["id"], t["mode"], "-" if t["prio"] is None else str(t["prio"]), patkey(pattern_text(t)),
-                1 if t["ai"] else 0, len(t["alts"]), alts))
+                ai, len(t["alts"]), alts)).rstrip())
     for n in nodes:
         L.append("node %d %s %s %s %s" % (n["id"], n["kind"], n["lname"], n["text"], " ".join(str(k) for k in n["kids"])))
     root_id = nodes[0]["id"]
